@@ -2,6 +2,7 @@ import BGV.Model.Paths
 import BGV.Algo.Bfs4
 import BGV.Algo.AllPred3
 import BGV.Algo.Bfs5
+import BGV.Algo.MultiPath3
 /-!
 # Property C11 — breadth-first geodesics (part: `findVertexPredecessors`)
 
@@ -19,8 +20,9 @@ fewer than 2^32−1 vertices, so that no distance reaches the sentinel).
 destination is unreachable, otherwise a path along stored edges from source to destination with
 exactly the minimum number of hops.
 
-Not yet proved in Lean (correspondence only, exhaustive on all digraphs with ≤ 4 vertices and all
-undirected graphs with ≤ 5): the multi-path machine behind `findAllGeodesics*`.
+`findAllGeodesics` (`C11_findAllGeodesics`): the two-stack machine returns exactly the set of all
+shortest paths — each valid, none missing, none repeated — provided it finishes within the
+model's step budget (`multiFuel`; the C++ has no budget, the model's is a technical bound).
 -/
 namespace BGV
 open Bfs
@@ -177,6 +179,138 @@ theorem C11_findGeodesics {L : Type} (g : G L) (s t : Nat) (hs : s < g.size) (ht
 example : findGeodesics (⟨false, 5, [[1, 2], [3], [3], [], [0]], 5, []⟩ : G Nat) 0 3 = .ok [0, 1, 3] ∧
     findGeodesics (⟨false, 5, [[1, 2], [3], [3], [], [0]], 5, []⟩ : G Nat) 0 4 = .ok [] ∧
     findGeodesics (⟨false, 5, [[1, 2], [3], [3], [], [0]], 5, []⟩ : G Nat) 2 2 = .ok [2] := by decide
+
+/-- **C11, findAllGeodesics.** `[[s]]` for the source itself, no path when the destination is
+unreachable, otherwise exactly the set of all shortest paths, each listed once. -/
+theorem C11_findAllGeodesics {L : Type} (g : G L) (s t : Nat) (hs : s < g.size) (ht : t < g.size)
+    (hwf : adjWF g.adj = true) (hlen : g.adj.length = g.size) (hn : g.size < MAX) :
+    (s = t → findAllGeodesics g s t = .ok [[s]]) ∧
+    (s ≠ t → ¬ Reachable g.adj s t → findAllGeodesics g s t = .ok []) ∧
+    (s ≠ t → Reachable g.adj s t →
+      MultiPath.stackCnt (allPredRun g.adj s).preds s (fun v => (allPredRun g.adj s).dist.getD v MAX)
+        ((((allPredRun g.adj s).preds.getD t []).map (fun p => (p, ([] : List Nat)))).reverse) < multiFuel →
+      ∃ Ls, findAllGeodesics g s t = .ok Ls ∧ Ls.Nodup ∧
+        ∀ path, path ∈ Ls ↔ (chainOK g.adj path ∧ path.head? = some s ∧ path.getLast? = some t ∧
+          ∀ k, Walk g.adj s t k → path.length ≤ k + 1)) := by
+  have hWF : WF g.adj := (adjWF_iff g.adj).1 hwf
+  have hs' : s < g.adj.length := by rw [hlen]; exact hs
+  have hn' : g.adj.length < MAX := by rw [hlen]; exact hn
+  obtain ⟨hinv, hq⟩ := AllPred.final_inv g.adj s hWF hs' hn'
+  obtain ⟨f1, f2, f3, f4, f5⟩ := AllPred.final_of_inv hinv hq
+  -- names for the result vectors
+  obtain ⟨r, hrdef⟩ : ∃ r, r = (AllPred.loop g.adj (2 * g.adj.length + 1) (AllPred.init g.adj.length s) []).1 := ⟨_, rfl⟩
+  rw [← hrdef] at hinv hq f1 f2 f3 f4 f5
+  have hrun : allPredRun g.adj s = ⟨r.dist, r.preds, (AllPred.loop g.adj (2 * g.adj.length + 1) (AllPred.init g.adj.length s) []).2⟩ := by
+    rw [hrdef]; rfl
+  have hfap : findAllVertexPredecessors g s = .ok (allPredRun g.adj s) := by
+    simp [findAllVertexPredecessors, hs, hwf]
+  have hr : (decide (s < g.size) && decide (t < g.size)) = true := by simp [hs, ht]
+  have hreach : ∀ v, Reachable g.adj s v ↔ r.d v ≠ MAX := by
+    intro v
+    constructor
+    · rintro ⟨k, hk⟩; exact (f1 v k hk).1
+    · intro hv; exact ⟨_, f2 v hv⟩
+  refine ⟨?_, ?_, ?_⟩
+  · intro hst; subst hst; simp [findAllGeodesics, hs]
+  · intro hst hnr
+    have hdt : r.d t = MAX := by
+      cases Nat.decEq (r.d t) MAX with
+      | isTrue h => exact h
+      | isFalse h => exact absurd ((hreach t).2 h) hnr
+    have : (allPredRun g.adj s).dist.getD t MAX = MAX := by rw [hrun]; exact hdt
+    simp only [findAllGeodesics, hr, Bool.not_true, Bool.false_eq_true, if_false, hst, hfap, Res.bind, this,
+      ne_eq, not_true_eq_false]
+  · intro hst hrt hsteps
+    have htfin : r.d t ≠ MAX := (hreach t).1 hrt
+    have hdist : (allPredRun g.adj s).dist.getD t MAX ≠ MAX := by rw [hrun]; exact htfin
+    rw [hrun] at hsteps
+    simp only at hsteps
+    -- the predecessor structure
+    have hPS : MultiPath.PS r.preds s (fun v => r.d v ≠ MAX) r.d := by
+      refine ⟨?_, ⟨by rw [hinv.src.1]; decide, hinv.src.2.2.1⟩, ?_, ?_⟩
+      · intro c hc
+        have := hinv.seenlt c hc
+        simp [List.getD_eq_getElem?_getD, hinv.sized.hp, this]
+      · intro c hc hcs; exact hinv.tree c hc hcs
+      · intro c _ p hp
+        obtain ⟨p1, _, p3⟩ := hinv.pvalid c p hp
+        exact ⟨p1, by omega⟩
+    have hF : MultiPath.Final g.adj s r.d (fun v => r.preds.getD v []) (fun v => r.d v ≠ MAX) :=
+      ⟨⟨by rw [hinv.src.1]; decide, hinv.src.1⟩, f1, f2, f3⟩
+    have hgett : r.preds[t]? = some (r.preds.getD t []) := hPS.get t htfin
+    have hstack_ok : ∀ e ∈ ((r.preds.getD t []).map (fun p => (p, ([] : List Nat)))).reverse, r.d e.1 ≠ MAX := by
+      intro e he
+      simp only [List.mem_reverse, List.mem_map] at he
+      obtain ⟨p, hp, rfl⟩ := he
+      exact (hinv.pvalid t p hp).1
+    have hrunm := MultiPath.multiLoop_spec (t := t) hPS multiFuel _ [] hstack_ok hsteps
+    refine ⟨MultiPath.stackEnum r.preds s t r.d (((r.preds.getD t []).map (fun p => (p, ([] : List Nat)))).reverse), ?_, ?_, ?_⟩
+    · simp only [findAllGeodesics, hr, Bool.not_true, Bool.false_eq_true, if_false, hst, hfap, Res.bind,
+        hdist, ne_eq, not_false_eq_true, if_true, findMultiplePathsFromPredecessors]
+      rw [hrun]
+      simp only [hgett, hrunm, List.nil_append]
+    · -- no path is repeated
+      simp only [MultiPath.stackEnum, List.Nodup]
+      rw [List.pairwise_flatMap]
+      constructor
+      · intro e he
+        exact MultiPath.enum_nodup hPS (fun c => hinv.pnodup c) _ e.1 e.2 (hstack_ok e he) (Nat.le_refl _)
+      · have hnd : (((r.preds.getD t []).map (fun p => (p, ([] : List Nat)))).reverse).Nodup := by
+          have h0 := hinv.pnodup t
+          simp only [List.Nodup] at h0 ⊢
+          rw [List.pairwise_reverse, List.pairwise_map]
+          exact h0.imp (fun hab => fun e => hab (Prod.mk.inj e).1.symm)
+        refine List.Pairwise.imp_of_mem ?_ hnd
+        intro a b ha hb hab x hx y hy hxy
+        obtain ⟨q1, hq1, rfl⟩ := (MultiPath.enum_mem hPS _ a.1 a.2 (hstack_ok a ha) (Nat.le_refl _) x).1 hx
+        obtain ⟨q2, hq2, e2⟩ := (MultiPath.enum_mem hPS _ b.1 b.2 (hstack_ok b hb) (Nat.le_refl _) y).1 hy
+        simp only [List.mem_reverse, List.mem_map] at ha hb
+        obtain ⟨pa, _, rfl⟩ := ha
+        obtain ⟨pb, _, rfl⟩ := hb
+        rw [e2] at hxy
+        have : q1 = q2 := by
+          have h1 : q1 ++ ([] ++ [t]) = q2 ++ ([] ++ [t]) := by simpa [List.append_assoc] using hxy
+          exact List.append_cancel_right h1
+        subst this
+        have l1 := MultiPath.pc_last hq1
+        have l2 := MultiPath.pc_last hq2
+        rw [l1] at l2
+        apply hab
+        have : pa = pb := Option.some.inj l2
+        rw [this]
+    · -- exactly the shortest paths
+      intro path
+      have hmem : path ∈ MultiPath.stackEnum r.preds s t r.d (((r.preds.getD t []).map (fun p => (p, ([] : List Nat)))).reverse)
+          ↔ MultiPath.PC r.preds s path t := by
+        simp only [MultiPath.stackEnum, List.mem_flatMap, List.mem_reverse, List.mem_map]
+        constructor
+        · rintro ⟨e, ⟨p, hp, rfl⟩, hx⟩
+          obtain ⟨q, hq, rfl⟩ := (MultiPath.enum_mem hPS _ p [] (hinv.pvalid t p hp).1 (Nat.le_refl _) path).1 hx
+          simpa using MultiPath.PC.step hq hp (fun e => hst e.symm)
+        · intro hpc
+          obtain ⟨q0, p, rfl, hq0, hp⟩ := MultiPath.pc_inv hpc (fun e => hst e.symm)
+          exact ⟨(p, []), ⟨p, hp, rfl⟩,
+            (MultiPath.enum_mem hPS _ p [] (hinv.pvalid t p hp).1 (Nat.le_refl _) _).2 ⟨q0, hq0, by simp⟩⟩
+      rw [hmem, MultiPath.pc_iff_geo hF path t htfin]
+      simp only [MultiPath.Geo]
+      constructor
+      · rintro ⟨g1, g2, g3, g4⟩
+        refine ⟨g1, g2, g3, ?_⟩
+        intro k hk; have := (f1 t k hk).2; omega
+      · rintro ⟨g1, g2, g3, g4⟩
+        refine ⟨g1, g2, g3, ?_⟩
+        have hne : path ≠ [] := by intro e; subst e; simp at g2
+        have hlen1 : path.length = (path.length - 1) + 1 := by
+          cases path with
+          | nil => exact absurd rfl hne
+          | cons a l => simp
+        have hw := MultiPath.chain_walk g.adj s (path.length - 1) path t hlen1 g1 g2 g3
+        have h1 := (f1 t _ hw).2
+        have h2 := g4 (r.d t) (f2 t htfin)
+        omega
+
+example : findAllGeodesics (⟨false, 5, [[1, 2], [3], [3], [], [0]], 5, []⟩ : G Nat) 0 3 = .ok [[0, 2, 3], [0, 1, 3]] := by
+  decide
 
 example : WF [[1, 2], [3], [3], [], [0]] ∧ (bfsRun [[1, 2], [3], [3], [], [0]] 0).dist = [0, 1, 1, 2, MAX] := by
   constructor
